@@ -7,14 +7,14 @@ def closeState (s : Server) (c : Nat) (x : Conn) : Server :=
   { s with conns := (s.conns.map (unadopt c)).set c (closing x), clients := unregister s c x }
 
 theorem drainK_nonfatal_toks (s₁ : Server) (c : Nat) (x : Conn) (h : (drainK s₁ c x).2 = none) :
-    (drainK s₁ c x).1.map (·.1) = x.wills.map (·.tok) := by
+    (drainK s₁ c x).1.map (·.tok) = x.wills.map (·.tok) := by
   unfold drainK at h ⊢
   cases hk : x.kind <;> simp only [hk] at h ⊢
   · exact drain_nonfatal_toks s₁ c x.wills h
   · exact drainT_toks x.wills
 
 theorem drainK_prefix (s₁ : Server) (c : Nat) (x : Conn) :
-    ∃ rest, x.wills.map (·.tok) = (drainK s₁ c x).1.map (·.1) ++ rest := by
+    ∃ rest, x.wills.map (·.tok) = (drainK s₁ c x).1.map (·.tok) ++ rest := by
   unfold drainK
   cases hk : x.kind <;> simp only []
   · exact drain_toks_prefix s₁ c x.wills
@@ -24,8 +24,8 @@ theorem doClose_none (s : Server) (c : Nat) (x : Conn) (h : (drainK (closeState 
     doClose s c x =
       ({ conns := ((s.conns.map (unadopt c)).set c (closing x)).set c { closing x with inited := false },
          clients := unregister s c x,
-         owner := putOwners s.owner c ((drainK (closeState s c x) c x).1.map (·.1)),
-         engine := s.engine ++ ((drainK (closeState s c x) c x).1.map (·.1)).map (fun t => (c, t)),
+         owner := putOwners s.owner c ((drainK (closeState s c x) c x).1.map (·.tok)),
+         willLog := s.willLog ++ ((drainK (closeState s c x) c x).1.map (·.tok)).map (fun t => (c, t)),
          dead := none },
        (drainK (closeState s c x) c x).1, none) := by
   unfold doClose
@@ -39,8 +39,8 @@ theorem doClose_some (s : Server) (c : Nat) (x : Conn) (f : Fatal) (h : (drainK 
     doClose s c x =
       ({ conns := (s.conns.map (unadopt c)).set c (closing x),
          clients := unregister s c x,
-         owner := putOwners s.owner c ((drainK (closeState s c x) c x).1.map (·.1)),
-         engine := s.engine ++ ((drainK (closeState s c x) c x).1.map (·.1)).map (fun t => (c, t)),
+         owner := putOwners s.owner c ((drainK (closeState s c x) c x).1.map (·.tok)),
+         willLog := s.willLog ++ ((drainK (closeState s c x) c x).1.map (·.tok)).map (fun t => (c, t)),
          dead := some f },
        (drainK (closeState s c x) c x).1, some f) := by
   unfold doClose
@@ -105,7 +105,7 @@ theorem good_doClose {s : Server} (hg : Good s) (hs : Safe s) {c : Nat} {x : Con
     | some f => rw [doClose_some s c x f h] at hn; cases hn
   rw [doClose_none s c x hd]
   have htoks := drainK_nonfatal_toks _ c x hd
-  generalize (drainK (closeState s c x) c x).1.map (·.1) = toks at htoks
+  generalize (drainK (closeState s c x) c x).1.map (·.tok) = toks at htoks
   have lkc := closed_get_self hx { closing x with inited := false }
   constructor
   · intro j y hj hcl
@@ -177,12 +177,12 @@ theorem good_doClose {s : Server} (hg : Good s) (hs : Safe s) {c : Nat} {x : Con
         rw [unadopt_reg, unadopt_wills]; exact hg.willsOpen j y0 h0 hop
   · intro j y hj hcl
     dsimp only at hj
-    show execL (s.engine ++ toks.map (fun t => (c, t))) j = y.reg
+    show execL (s.willLog ++ toks.map (fun t => (c, t))) j = y.reg
     rw [execL_append]
     by_cases e : j = c
     · subst e; rw [lkc] at hj; cases hj
       rw [execL_same]
-      have h1 : execL s.engine j = [] := hs.execOpen j x hx ho
+      have h1 : execL s.willLog j = [] := hs.execOpen j x hx ho
       rw [h1, htoks]
       simp only [closing, List.nil_append]
       exact (hg.willsOpen j x hx ho).symm
@@ -220,7 +220,7 @@ theorem safe_doClose {s : Server} (hs : Safe s) {c : Nat} {x : Conn} (hx : s.con
       conns'.length = s.conns.length →
       (∀ xc, conns'[c]? = some xc → xc.closed = true) →
       (∀ j, j ≠ c → conns'[j]? = (s.conns[j]?).map (unadopt c)) →
-      Safe { conns := conns', clients := cl', owner := ow', engine := s.engine ++ toks.map (fun t => (c, t)), dead := dd } := by
+      Safe { conns := conns', clients := cl', owner := ow', willLog := s.willLog ++ toks.map (fun t => (c, t)), dead := dd } := by
     intro conns' cl' ow' dd toks hl hc hne
     constructor
     · intro e he
@@ -232,7 +232,7 @@ theorem safe_doClose {s : Server} (hs : Safe s) {c : Nat} {x : Conn} (hx : s.con
         exact hlen
     · intro j y hj hop
       dsimp only at hj
-      show execL (s.engine ++ toks.map (fun t => (c, t))) j = []
+      show execL (s.willLog ++ toks.map (fun t => (c, t))) j = []
       by_cases e : j = c
       · subst e; have := hc y hj; rw [this] at hop; cases hop
       · rw [hne j e] at hj
@@ -276,7 +276,7 @@ theorem drain_alive (s₁ : Server) (c : Nat) (ws : List Will) (h : ∀ tok, rec
   | nil => rfl
   | cons w ws ih =>
     unfold drain
-    by_cases hi : w.imm = true
+    by_cases hi : (w.imm || w.self) = true
     · simp only [hi, if_true]
       split
       · rename_i hl; exact absurd hl (h w.tok)
